@@ -501,6 +501,10 @@ class Run:
             return ("poison", "arithmetic on a tuple")
         if a[0] == "cx" or b[0] == "cx":
             return c_arith(sym, a, b)
+        if a[0] == "c" and b[0] == "c" and sym in ("+", "-", "*"):
+            # constant folding (exact rationals); needed for flag-dependent exponents such as
+            # sqrt(2) ** (1 + self.iscomplex)
+            return ("c", a[1] + b[1] if sym == "+" else a[1] - b[1] if sym == "-" else a[1] * b[1])
         return (sym, a, b)
 
     def call(self, e, env):
